@@ -2,6 +2,7 @@
 //!   vl-svc listen <address> [idle_timeout_s]     plain listen() server
 //!   vl-svc activated                              socket-activated server; dumps what it was given
 //!   vl-svc stdio                                  serves stdin/stdout through handle()
+//!   vl-svc listen-spaced <unix address>           thread-per-connection server whose replies carry blanks
 //!   vl-svc listener-matrix <fds|-> <own|other|junk|-> <names|-> <address>
 
 use serde_json::json;
@@ -31,6 +32,92 @@ fn open_fds() -> Vec<i32> {
         .unwrap_or_default();
     v.sort();
     v
+}
+
+struct Spaced;
+
+impl serde_json::ser::Formatter for Spaced {
+    fn begin_array_value<W: ?Sized + Write>(&mut self, w: &mut W, first: bool) -> std::io::Result<()> {
+        if first {
+            Ok(())
+        } else {
+            w.write_all(b", ")
+        }
+    }
+    fn begin_object_key<W: ?Sized + Write>(&mut self, w: &mut W, first: bool) -> std::io::Result<()> {
+        if first {
+            Ok(())
+        } else {
+            w.write_all(b", ")
+        }
+    }
+    fn begin_object_value<W: ?Sized + Write>(&mut self, w: &mut W) -> std::io::Result<()> {
+        w.write_all(b": ")
+    }
+}
+
+/// Re-serialise every NUL-terminated JSON message with blanks after `:` and `,`.
+fn respace(out: &[u8]) -> Vec<u8> {
+    use serde::Serialize;
+    let mut v = vec![];
+    for piece in out.split_inclusive(|b| *b == 0) {
+        if piece.last() == Some(&0) {
+            if let Ok(val) = serde_json::from_slice::<serde_json::Value>(&piece[..piece.len() - 1]) {
+                let mut ser = serde_json::Serializer::with_formatter(&mut v, Spaced);
+                if val.serialize(&mut ser).is_ok() {
+                    v.push(0);
+                    continue;
+                }
+            }
+        }
+        v.extend_from_slice(piece);
+    }
+    v
+}
+
+/// Serve one byte stream through handle(); bytes behind an upgrade request are handed to the
+/// upgraded handler right away.
+fn serve(svc: &varlink::VarlinkService, input: &mut dyn Read, output: &mut dyn Write, spaced: bool) {
+    let mut pending: Vec<u8> = vec![];
+    let mut iface: Option<String> = None;
+    let mut buf = [0u8; 8192];
+    let mut fed = usize::MAX;
+    loop {
+        let again = iface.is_some() && !pending.is_empty() && pending.len() != fed;
+        if !again {
+            let n = match input.read(&mut buf) {
+                Ok(0) | Err(_) => break,
+                Ok(n) => n,
+            };
+            pending.extend_from_slice(&buf[..n]);
+        }
+        fed = pending.len();
+        let mut out = vec![];
+        let mut rd: &[u8] = &pending;
+        let before = iface.clone();
+        match svc.handle(&mut rd, &mut out, iface.clone()) {
+            Ok((rest, i)) => {
+                let mut rest = rest;
+                rest.extend_from_slice(rd);
+                pending = rest;
+                iface = i;
+                if spaced && before.is_none() && iface.is_none() {
+                    out = respace(&out);
+                }
+                if output.write_all(&out).is_err() || output.flush().is_err() {
+                    break;
+                }
+            }
+            Err(_) => {
+                if spaced && before.is_none() {
+                    out = respace(&out);
+                }
+                let _ = output.write_all(&out);
+                let _ = output.flush();
+                break;
+            }
+        }
+    }
 }
 
 fn main() {
@@ -80,41 +167,23 @@ fn main() {
         }
         "stdio" => {
             let (svc, _p) = vl_tsvc::t_service_with(true);
-            let mut stdin = std::io::stdin();
-            let mut stdout = std::io::stdout();
-            let mut pending: Vec<u8> = vec![];
-            let mut iface: Option<String> = None;
-            let mut buf = [0u8; 8192];
-            let mut fed = usize::MAX;
-            loop {
-                // bytes behind an upgrade request are handed to the upgraded handler right away
-                let again = iface.is_some() && !pending.is_empty() && pending.len() != fed;
-                if !again {
-                    let n = match stdin.read(&mut buf) {
-                        Ok(0) | Err(_) => break,
-                        Ok(n) => n,
-                    };
-                    pending.extend_from_slice(&buf[..n]);
-                }
-                fed = pending.len();
-                let mut out = vec![];
-                let mut rd: &[u8] = &pending;
-                match svc.handle(&mut rd, &mut out, iface.clone()) {
-                    Ok((rest, i)) => {
-                        let mut rest = rest;
-                        rest.extend_from_slice(rd);
-                        pending = rest;
-                        iface = i;
-                        if stdout.write_all(&out).is_err() || stdout.flush().is_err() {
-                            break;
-                        }
-                    }
-                    Err(_) => {
-                        let _ = stdout.write_all(&out);
-                        let _ = stdout.flush();
-                        break;
-                    }
-                }
+            serve(&svc, &mut std::io::stdin(), &mut std::io::stdout(), false);
+        }
+        "listen-spaced" => {
+            // a service whose replies carry blanks after `:` and `,` (what e.g. Python's json.dumps writes)
+            let addr = args.get(2).expect("address");
+            let path = addr.strip_prefix("unix:").expect("unix address");
+            let _ = std::fs::remove_file(path);
+            let l = std::os::unix::net::UnixListener::bind(path).expect("bind");
+            for c in l.incoming() {
+                let Ok(c) = c else { continue };
+                std::thread::spawn(move || {
+                    let (svc, _p) = vl_tsvc::t_service_with(true);
+                    let Ok(mut w) = c.try_clone() else { return };
+                    let mut r = c;
+                    serve(&svc, &mut r, &mut w, true);
+                    let _ = w.shutdown(std::net::Shutdown::Both);
+                });
             }
         }
         "listener-matrix" => {
